@@ -12,7 +12,7 @@ import ast
 from sa.model import AnalysisError, FuncInfo
 from sa.ctx import Ctx, short, stmt_key
 from sa.cfg import NORMAL, describe_path
-from sa.report import Report
+from sa.report import Report, section
 from sa.statemodel import StateModel, _has_inst
 from sa import pat
 from sa.util import disjunctions, fact_in
@@ -296,15 +296,15 @@ def extra_guards(facts, allowed):
 
 def run(ctx: Ctx, rep: Report, tier: str):
     c = C11(ctx, rep)
-    c.x1()
-    c.x2()
+    section(rep, c.x1)
+    section(rep, c.x2)
     rep.rule("C11.X3", "in both __setattr__ the call to updated() precedes the store of the private field (the index code compares "
              "with the OLD path / id / priority)", expect_min=4)
     C08(ctx, rep).funnel("C11.X3")
-    c.x4()
-    c.x5()
-    c.x6()
-    c.x7()
+    section(rep, c.x4)
+    section(rep, c.x5)
+    section(rep, c.x6)
+    section(rep, c.x7)
     from rules.common import alias
     from rules.C06 import C06
     alias(rep, ["C06.R5"], "C11.X8", "after a restart the indexes are rebuilt for every stored entry: each loaded entry is entered in the id index and in the (path, id) "
@@ -356,4 +356,4 @@ def run(ctx: Ctx, rep: Report, tier: str):
                   "SyncState.forget no longer resets `%s`: after forget() the containers disagree (e.g. entries still pending whose index entries and rows are gone)" % attr)
     from rules.common import rename_copy_guard
     rep.rule("C11.X11", "re-keying an entry on rename never overwrites an indexed peer half (C04.R11)", 1)
-    rename_copy_guard(ctx, rep, "C11.X11")
+    section(rep, lambda: rename_copy_guard(ctx, rep, "C11.X11"))
